@@ -378,6 +378,24 @@ type UDPRigOpts struct {
 	Tee        service.UDPMetrics
 	NoNatHook  bool
 	Listeners  int // total number of listeners served by the one handler (default 1)
+	// ViaService builds the handler the way the server binary does: service.NewShadowsocksService with
+	// options, datagrams enter through Service.HandlePacket (anything the service puts between the listener
+	// and the packet handler is then on the path)
+	ViaService bool
+}
+
+// udpRigSvcMetrics is the ServiceMetrics handed to NewShadowsocksService: the rig's own recorders.
+type udpRigSvcMetrics struct {
+	rec *UDPRec
+	ss  *searchRec
+}
+
+func (m *udpRigSvcMetrics) AddUDPNatEntry(clientAddr net.Addr, accessKey string) service.UDPConnMetrics {
+	return m.rec.AddUDPNatEntry(clientAddr, accessKey)
+}
+func (m *udpRigSvcMetrics) AddOpenTCPConnection(conn net.Conn) service.TCPConnMetrics { return nil }
+func (m *udpRigSvcMetrics) AddCipherSearch(proto string, found bool, d time.Duration) {
+	m.ss.AddCipherSearch(found, d)
 }
 
 func StartUDPRig(keys []KeySpec, o UDPRigOpts) *UDPRig {
@@ -395,12 +413,22 @@ func StartUDPRig(keys []KeySpec, o UDPRigOpts) *UDPRig {
 		rig.Nat.Install()
 	}
 	rig.Sock = &serverSock{PacketConn: pc}
-	rig.Handler = service.NewPacketHandler(o.NatTimeout, rig.CL, rig.Rec, rig.SS)
+	handle := func(pc net.PacketConn) {}
+	if o.ViaService {
+		svc, err := service.NewShadowsocksService(service.WithCiphers(rig.CL), service.WithMetrics(&udpRigSvcMetrics{rig.Rec, rig.SS}), service.WithNatTimeout(o.NatTimeout))
+		if err != nil {
+			fatalf("udp rig service: %v", err)
+		}
+		handle = svc.HandlePacket
+	} else {
+		rig.Handler = service.NewPacketHandler(o.NatTimeout, rig.CL, rig.Rec, rig.SS)
+		handle = rig.Handler.Handle
+	}
 	var loops sync.WaitGroup
 	loops.Add(1)
 	go func() {
 		defer loops.Done()
-		rig.Handler.Handle(rig.Sock)
+		handle(rig.Sock)
 	}()
 	for i := 1; i < o.Listeners; i++ {
 		xpc, err := net.ListenUDP("udp", &net.UDPAddr{})
@@ -413,7 +441,7 @@ func StartUDPRig(keys []KeySpec, o UDPRigOpts) *UDPRig {
 		loops.Add(1)
 		go func() {
 			defer loops.Done()
-			rig.Handler.Handle(&serverSock{PacketConn: xpc})
+			handle(&serverSock{PacketConn: xpc})
 		}()
 	}
 	go func() {
